@@ -112,7 +112,7 @@ def engine_for_case(p, path):
     return p["engines"][0]
 
 
-def run_campaign(pid, p, eng, binp, tier, seed, scratch, exclude):
+def run_campaign(pid, p, eng, binp, tier, seed, scratch, exclude, bins_all=None):
     """Runs one engine's campaign; returns dict(stats..., failures=[(case_path, msg)])."""
     cfg = eng[tier]
     procs = cfg.get("procs", 1)
@@ -121,6 +121,8 @@ def run_campaign(pid, p, eng, binp, tier, seed, scratch, exclude):
     for i in range(procs):
         out = os.path.join(scratch, "%s-%s-%d" % (eng.get("name", eng["harness"]), tier, i))
         os.makedirs(out, exist_ok=True)
+        if eng["type"] == "fuzz":
+            os.makedirs(os.path.join(out, "corpus"), exist_ok=True)
         outs.append(out)
         if eng["type"] == "pbt":
             cmd = [binp, "--run", "--out", out, "--seed", str(seed * 1000 + i), "--cases", str(cfg["cases"]),
@@ -133,11 +135,23 @@ def run_campaign(pid, p, eng, binp, tier, seed, scratch, exclude):
                 cmd += ["--only", eng["only"]]
         else:
             cmd = [binp] + [str(a).replace("{out}", out).replace("{seed}", str(seed * 1000 + i)).replace("{i}", str(i))
-                            .replace("{procs}", str(procs)).replace("{verif}", VERIF) for a in cfg["args"]]
+                            .replace("{procs}", str(procs)).replace("{verif}", VERIF).replace("{scratch}", scratch) for a in cfg["args"]]
         cmds.append(cmd)
     extra = dict(eng.get("env", {}))
     extra["VERIF_EXCLUDE"] = ",".join(exclude)
     extra["VERIF_TIER"] = tier
+    if eng.get("asan_extra"):
+        extra["ASAN_OPTIONS"] = ASAN_OPTS + ":" + eng["asan_extra"]
+    # optional preparation (e.g. a seed corpus emitted by another engine's binary of the same property)
+    for prep in eng.get("prepare", []):
+        pb = bins_all[prep["engine"]]
+        pcmd = [pb] + [str(a).replace("{scratch}", scratch).replace("{seed}", str(seed)) for a in prep["args"]]
+        for d in prep.get("mkdirs", []):
+            os.makedirs(d.replace("{scratch}", scratch), exist_ok=True)
+        r = subprocess.run(pcmd, env=env_for(extra), stdout=subprocess.PIPE, stderr=subprocess.STDOUT, text=True, errors="replace", timeout=900, cwd=scratch)
+        if r.returncode != 0:
+            return dict(evaluations=0, vacuous=0, excluded=0, classes={}, per_prop={}, excluded_by={}, samples=[], enum_scopes=[],
+                        budget_exhausted=False, failures=[], errors=["prepare step failed: " + r.stdout[-2000:]], hashes=set())
 
     def one(i):
         log = os.path.join(outs[i], "log.txt")
@@ -185,7 +199,26 @@ def run_campaign(pid, p, eng, binp, tier, seed, scratch, exclude):
                 case = os.path.join(out, nm)
                 break
         arts = sorted(glob.glob(os.path.join(out, "crash-*")) + glob.glob(os.path.join(out, "leak-*")))
-        if rc == 0 and not case and not arts:
+        hangs = sorted(glob.glob(os.path.join(out, "timeout-*")))
+        noise = sorted(glob.glob(os.path.join(out, "oom-*")) + glob.glob(os.path.join(out, "slow-unit-*")))
+        if rc == 0 and not case and not arts and not hangs:
+            continue
+        for hp_ in hangs:
+            # candidate hang (DESIGN.md 4.6): only an input that exceeds the bound on each of three solitary re-runs is reported
+            slow = 0
+            for _ in range(3):
+                t1 = time.time()
+                failed, _txt = replay_once(binp, eng, hp_, out, timeout=eng.get("hang_seconds", 20))
+                if failed and time.time() - t1 >= eng.get("hang_seconds", 20) - 1:
+                    slow += 1
+            if slow == 3:
+                agg["failures"].append((hp_, "candidate hang: the input runs longer than %d s on three solitary re-runs" % eng.get("hang_seconds", 20), ""))
+            else:
+                agg["errors"].append("libFuzzer reported a timeout under load that does not reproduce alone (inconclusive, timed out): " + os.path.basename(hp_))
+        if not case and not arts and (hangs or noise):
+            if noise:
+                agg["errors"].append("libFuzzer stopped on %s (load noise, inconclusive, timed out)" % os.path.basename(noise[0]))
+                agg["budget_exhausted"] = True
             continue
         logtxt = open(os.path.join(out, "log.txt"), errors="replace").read()
         if case:
@@ -294,9 +327,9 @@ def run(pid, p, a, seed, t0, scratch):
     unconfirmed = 0
     if not violations:
         for eng in p["engines"]:
-            if a.tier not in eng:
+            if not eng.get(a.tier):
                 continue
-            agg = run_campaign(pid, p, eng, bins[ekey(eng)], a.tier, seed, scratch, exclude)
+            agg = run_campaign(pid, p, eng, bins[ekey(eng)], a.tier, seed, scratch, exclude, bins)
             for k in ("evaluations", "vacuous", "excluded"):
                 total[k] += agg[k]
             for k in ("classes", "per_prop", "excluded_by"):
